@@ -17,6 +17,8 @@ import (
 	"bufio"
 	"bytes"
 	"encoding/binary"
+	"encoding/hex"
+	"encoding/json"
 	"errors"
 	"fmt"
 	"io"
@@ -45,6 +47,48 @@ func init() {
 }
 
 const c14Rule = "configurations (catalogue types x gen.RandWriterCfg, and a local row type with bloom filters, deferred bloom buffers, file/chunk page-buffer pools, every codec, SortingWriter, WriteRowGroup copy path, encryption) x {unbuffered, buffered} x fault offset x {full failure, short write} x {positional, sticky}; prefixes of every produced file; ReaderAt faults at every call index; non-trivial = the fault lies strictly inside the file (not at byte 0, not in the last 8 bytes) resp. the prefix keeps at least the header magic resp. the failing read is not the first one"
+
+// ---------------------------------------------------------------- replay of one recorded case
+
+type c14Replay struct {
+	Tier   string         `json:"tier"`
+	Seed   int64          `json:"seed"`
+	Key    string         `json:"key"`
+	Detail map[string]any `json:"detail"`
+}
+
+// c14LoadReplay reads the replay file (if any) and restores the tier and seed the configurations
+// were derived from. The case itself is re-run by the sub-check that owns it.
+func c14LoadReplay(ctx *core.Ctx) *c14Replay {
+	if ctx.Replay == "" {
+		return nil
+	}
+	b, err := os.ReadFile(ctx.Replay)
+	rp := &c14Replay{}
+	if err == nil {
+		err = json.Unmarshal(b, rp)
+	}
+	if err != nil {
+		ctx.Fail("L2", "replay-unreadable", "cannot read the replay file: "+err.Error(), nil)
+		return &c14Replay{Detail: map[string]any{}}
+	}
+	if rp.Tier != "" {
+		ctx.Tier = rp.Tier
+	}
+	if rp.Seed != 0 {
+		ctx.Seed = rp.Seed
+	}
+	if rp.Detail == nil {
+		rp.Detail = map[string]any{}
+	}
+	return rp
+}
+
+func (rp *c14Replay) str(k string) string { s, _ := rp.Detail[k].(string); return s }
+func (rp *c14Replay) num(k string) (int, bool) {
+	f, ok := rp.Detail[k].(float64)
+	return int(f), ok
+}
 
 // ---------------------------------------------------------------- fault sink (same semantics as IoFault.faultSink)
 
@@ -622,6 +666,8 @@ type c14Variant struct {
 	plan     string // model plan (writer-level ops) and the cap to run it with
 	planCap  string
 	names    []string
+	onlyK    int // replay: only this fault
+	onlyMode string
 }
 
 func (v *c14Variant) id() string {
@@ -734,10 +780,28 @@ type c14Obs struct {
 func RunC14Sink(ctx *core.Ctx) {
 	ctx.SetRule(c14Rule)
 	defer c14TempCleanup()
+	rp := c14LoadReplay(ctx)
+	if rp != nil {
+		if _, ok := rp.num("fail_offset"); !ok {
+			return // the recorded case belongs to another sub-check
+		}
+	}
 	cfgs := c14Configs(ctx)
 	var variants []*c14Variant
 	for _, c := range cfgs {
-		variants = append(variants, c14Prepare(ctx, c)...)
+		if rp != nil && c.name != rp.str("name") {
+			continue
+		}
+		for _, v := range c14Prepare(ctx, c) {
+			if rp != nil {
+				if b, _ := rp.Detail["buffered"].(bool); b != v.buffered {
+					continue
+				}
+				v.onlyK, _ = rp.num("fail_offset")
+				v.onlyMode = rp.str("mode")
+			}
+			variants = append(variants, v)
+		}
 	}
 	var wg sync.WaitGroup
 	sem := make(chan struct{}, 16)
@@ -757,7 +821,9 @@ func c14SinkVariant(ctx *core.Ctx, v *c14Variant, sample bool) {
 	c := v.cfg
 	if os.Getenv("C14_TIMING") != "" {
 		t0 := time.Now()
-		defer func() { fmt.Fprintf(os.Stderr, "c14 sink %-40s %8.2fs writes=%d size=%d\n", v.id(), time.Since(t0).Seconds(), len(v.trace), len(v.file)) }()
+		defer func() {
+			fmt.Fprintf(os.Stderr, "c14 sink %-40s %8.2fs writes=%d size=%d\n", v.id(), time.Since(t0).Seconds(), len(v.trace), len(v.file))
+		}()
 	}
 	r := ctx.Rand("c14/sink/" + v.id())
 	total := len(v.file)
@@ -823,6 +889,12 @@ func c14SinkVariant(ctx *core.Ctx, v *c14Variant, sample bool) {
 	}
 
 	ks := c14Offsets(ctx, v, r)
+	if v.onlyMode != "" {
+		if v.onlyK < 0 || v.onlyK >= total {
+			return // the fault-free comparison above was the recorded case
+		}
+		ks = []int{v.onlyK}
+	}
 	var obs []c14Obs
 	l2budget := ctx.Scale(60, 400)
 	l2every := 1
@@ -834,6 +906,9 @@ func c14SinkVariant(ctx *core.Ctx, v *c14Variant, sample bool) {
 		modes := []string{"full", "short"}
 		if r.Intn(4) == 0 || k < 8 {
 			modes = append(modes, "fullsticky", "shortsticky")
+		}
+		if v.onlyMode != "" {
+			modes = []string{v.onlyMode}
 		}
 		for _, mode := range modes {
 			sink := newC14Sink(k, mode)
@@ -976,6 +1051,31 @@ func (g *c14Greedy) Read(p []byte) (int, error) {
 
 func RunC14Bufio(ctx *core.Ctx) {
 	ctx.SetRule(c14Rule)
+	if rp := c14LoadReplay(ctx); rp != nil {
+		req := rp.str("request")
+		f := strings.Fields(req)
+		if len(f) != 5 || f[0] != "io.bufio" {
+			return
+		}
+		d := ctx.Driver()
+		if d == nil {
+			return
+		}
+		var capN int
+		k := -1
+		fmt.Sscanf(f[1], "%d", &capN)
+		if f[2] != "-" {
+			fmt.Sscanf(f[2], "%d", &k)
+		}
+		real := c14RealBufio(capN, k, f[3], strings.Split(f[4], ","))
+		ans, err := d.Ask(req)
+		ctx.Case(req, true)
+		if err != nil || ans != real {
+			ctx.Fail("L2", "bufio-mirror-differs "+c14BufioKey(req), "bufio.Writer over the fault sink and the Lean mirror disagree",
+				map[string]any{"request": req, "model": ans, "real": real})
+		}
+		return
+	}
 	ncases := ctx.Scale(6000, 60000)
 	workers := 8
 	var wg sync.WaitGroup
@@ -1123,13 +1223,16 @@ func c14RealBufio(capN, k int, mode string, ops []string) string {
 // ---------------------------------------------------------------- truncation
 
 type c14File struct {
-	name  string
-	desc  string
-	data  []byte
-	cols  [][]gen.Triple
-	nrows int
-	opts  []parquet.FileOption
-	marks []int // interesting offsets (write boundaries)
+	name     string
+	desc     string
+	data     []byte
+	cols     [][]gen.Triple
+	nrows    int
+	opts     []parquet.FileOption
+	marks    []int // interesting offsets (write boundaries)
+	only     bool  // replay: only the prefix of onlyN bytes / only the failing call onlyN
+	onlyN    int
+	onlyMode string
 }
 
 func c14Files(ctx *core.Ctx) []*c14File {
@@ -1269,12 +1372,29 @@ func c14OpenStage(err error) string {
 func RunC14Truncate(ctx *core.Ctx) {
 	ctx.SetRule(c14Rule)
 	defer c14TempCleanup()
+	rp := c14LoadReplay(ctx)
+	if rp != nil {
+		if req := rp.str("request"); strings.HasPrefix(req, "open.model ") {
+			c14ReplayOpen(ctx, req)
+			return
+		}
+		if _, ok := rp.num("prefix_length"); !ok {
+			return
+		}
+	}
 	files := c14Files(ctx)
 	// adversarial: a file whose byte-array value embeds a whole Parquet file / a bare trailer
 	files = append(files, c14NestedFiles(ctx)...)
 	var wg sync.WaitGroup
 	sem := make(chan struct{}, 16)
 	for fi, f := range files {
+		if rp != nil {
+			if f.name != rp.str("name") {
+				continue
+			}
+			f.onlyN, _ = rp.num("prefix_length")
+			f.only = true
+		}
 		wg.Add(1)
 		sem <- struct{}{}
 		go func(fi int, f *c14File) {
@@ -1284,7 +1404,37 @@ func RunC14Truncate(ctx *core.Ctx) {
 		}(fi, f)
 	}
 	wg.Wait()
-	c14OpenMalformed(ctx)
+	if rp == nil {
+		c14OpenMalformed(ctx)
+	}
+}
+
+// re-run one `open.model` request of a replay file
+func c14ReplayOpen(ctx *core.Ctx, req string) {
+	f := strings.Fields(req)
+	d := ctx.Driver()
+	if len(f) != 3 || d == nil {
+		return
+	}
+	var g []byte
+	if f[2] != "-" {
+		g, _ = hex.DecodeString(f[2])
+	}
+	var opts []parquet.FileOption
+	if f[1] == "1" {
+		opts = append(opts, parquet.WithDecryption(c14Keys{[]byte("0123456789abcdef")}))
+	}
+	var oerr error
+	func() {
+		defer func() {
+			if p := recover(); p != nil {
+				oerr = fmt.Errorf("PANIC %v", p)
+			}
+		}()
+		_, oerr = parquet.OpenFile(bytes.NewReader(g), int64(len(g)), opts...)
+	}()
+	ctx.Case(req, true)
+	c14AskOpen(ctx, d, []string{req}, []string{c14OpenStage(oerr)}, "the recorded file")
 }
 
 func c14TruncateFile(ctx *core.Ctx, f *c14File, sample bool) {
@@ -1325,6 +1475,12 @@ func c14TruncateFile(ctx *core.Ctx, f *c14File, sample bool) {
 		ns = append(ns, n)
 	}
 	sort.Ints(ns)
+	if f.only {
+		ns = []int{f.onlyN}
+		if f.onlyN < 0 || f.onlyN >= total {
+			return
+		}
+	}
 	d := ctx.Driver()
 	var reqs, wants []string
 	l2every := 1
@@ -1405,7 +1561,7 @@ func c14NestedFiles(ctx *core.Ctx) []*c14File {
 	var out []*c14File
 	for i, payload := range [][]byte{
 		inner, // a whole file: its trailer is a valid `len‖PAR1`
-		append([]byte{0xAA, 0xBB, 0xCC, 3, 0, 0, 0}, "PAR1"...), // a bare trailer with a tiny length
+		append([]byte{0xAA, 0xBB, 0xCC, 3, 0, 0, 0}, "PAR1"...),                   // a bare trailer with a tiny length
 		append([]byte{0x15, 0x00, 0x15, 0x00, 0xFF, 0xFF, 0xFF, 0x7F}, "PAR1"...), // a trailer whose length exceeds the prefix
 	} {
 		rows := []c14Row{{K: 1, V: []byte("before")}, {K: 2, V: payload}, {K: 3, V: []byte("after")}}
@@ -1526,10 +1682,28 @@ func (x *c14ReaderAt) ReadAt(p []byte, off int64) (int, error) {
 func RunC14ReadAt(ctx *core.Ctx) {
 	ctx.SetRule(c14Rule)
 	defer c14TempCleanup()
+	rp := c14LoadReplay(ctx)
+	if rp != nil {
+		if strings.HasPrefix(rp.str("request"), "readat.wrap ") {
+			c14ReadAtWrap(ctx)
+			return
+		}
+		if _, ok := rp.num("failing_call"); !ok {
+			return
+		}
+	}
 	files := c14Files(ctx)
 	var wg sync.WaitGroup
 	sem := make(chan struct{}, 16)
 	for fi, f := range files {
+		if rp != nil {
+			if f.name != rp.str("name") {
+				continue
+			}
+			f.only = true
+			f.onlyN, _ = rp.num("failing_call")
+			f.onlyMode = rp.str("mode")
+		}
 		wg.Add(1)
 		sem <- struct{}{}
 		go func(fi int, f *c14File) {
@@ -1539,7 +1713,9 @@ func RunC14ReadAt(ctx *core.Ctx) {
 		}(fi, f)
 	}
 	wg.Wait()
-	c14ReadAtWrap(ctx)
+	if rp == nil {
+		c14ReadAtWrap(ctx)
+	}
 }
 
 func c14ReadAtFile(ctx *core.Ctx, f *c14File, sample bool) {
@@ -1569,11 +1745,17 @@ func c14ReadAtFile(ctx *core.Ctx, f *c14File, sample bool) {
 		keep := append([]int{0, 1, 2, 3, n1 - 1, n1 - 2}, idx[:max]...)
 		idx = keep
 	}
+	if f.only {
+		idx = []int{f.onlyN}
+	}
 	for _, i := range idx {
 		if i < 0 || i >= n1 {
 			continue
 		}
 		for _, mode := range []string{"full", "short", "shorteof", "fullsticky"} {
+			if f.only && f.onlyMode != "" && mode != f.onlyMode {
+				continue
+			}
 			x := &c14ReaderAt{r: bytes.NewReader(f.data), failAt: int32(i), mode: mode}
 			class, err := c14ReadOutcome(x, int64(len(f.data)), f)
 			if !x.hit || (mode != "full" && mode != "fullsticky" && x.hitLen/2 == x.hitLen) {
